@@ -97,6 +97,12 @@ def space(tier):
                     ("W+S", [{"k": "wait", "s": 1}, {"k": "step", "fn": {"ret": 1}}])):
         units.append(({"program": {"name": nm, "seq": seq}, "cfg": {"env_kinds": ["fault"], "faults": ["5xx", "4xx"]}},
                       {"fault": 1, "total": 1}, cap))
+    # an at-most-once step interrupted by a crash whose retry strategy declines: the execution still ends (FAILED), it is
+    # not re-driven forever
+    for rn, retry in (("none", "none"), ("only-boom", {"table": [1, "no"], "only": ["Boom"]})):
+        for tail in ([], [{"k": "wait", "s": 1}]):
+            p = {"name": f"most[{rn}]" + ("+W" if tail else ""), "seq": [{"k": "step", "sem": "most", "fn": {"ret": "v"}, "retry": retry}] + tail}
+            units.append(({"program": p, "cfg": {"env_kinds": ["crash"]}}, {"crash": 2, "total": 2}, cap))
     for kind, p in programs(tier):
         base = {"env_kinds": ["deliver"], "spurious": True}
         if kind == "grid":
